@@ -9,8 +9,9 @@
 // for, range over a slice, return of one value, panic, make([]int, n), copy, append(a, b...),
 // append(a, e) on a slice of structs, composite literals of struct types and of slices of structs, calls
 // (also variadic, with f(s...)) of functions translated in the same run.  Anything else is an error:
-// the program then writes a file that defines nothing, so that every proof about the sources fails and
-// the check reports the obligation as no longer checked.
+// the function is then defined as a body that panics at once, so that every proof about it fails (and the
+// differential run of the interpreter against the real function disagrees) and the check reports the
+// obligation as no longer checked.
 //
 // usage: gotoir <repo> <out.v> file.go:Func file.go:Recv.Method ...
 package main
@@ -671,29 +672,25 @@ func main() {
 	names := []string{}
 	for _, w := range wants {
 		d := decls[w.file+":"+w.key]
+		var t string
+		var err error
 		if d == nil {
-			errs = append(errs, fmt.Sprintf("%s:%s not found", w.file, w.key))
-			continue
+			err = fmt.Errorf("%s:%s not found", w.file, w.key)
+		} else {
+			t, err = translate(w.key, d)
 		}
-		t, err := translate(w.key, d)
 		if err != nil {
+			// the function left the subset: it is DEFINED (so that the rest of the development still builds) as a body that
+			// panics at once, which no theorem about the function accepts and no run of the real function matches
 			errs = append(errs, err.Error())
-			continue
+			t = fmt.Sprintf("(* TRANSLATION FAILED: %s *)\nDefinition src_%s : fdef := FDef [] SPanic.\n",
+				strings.ReplaceAll(err.Error(), "*)", "* )"), strings.ReplaceAll(w.key, ".", "_"))
 		}
 		b.WriteString(t + "\n")
 		names = append(names, w.key)
 	}
-	if len(errs) > 0 {
-		// nothing is defined: every proof about the sources fails
-		var e strings.Builder
-		e.WriteString("(* GENERATED by /verif/gotocoq/ir: the translation FAILED, nothing is defined.\n")
-		for _, m := range errs {
-			e.WriteString("   " + strings.ReplaceAll(m, "*)", "* )") + "\n")
-			fmt.Fprintln(os.Stderr, "gotoir:", m)
-		}
-		e.WriteString("*)\n")
-		os.WriteFile(out, []byte(e.String()), 0644)
-		os.Exit(1)
+	for _, m := range errs {
+		fmt.Fprintln(os.Stderr, "gotoir:", m)
 	}
 	b.WriteString("Definition go_funs : funenv :=\n  [")
 	for i, n := range names {
@@ -706,5 +703,8 @@ func main() {
 	if err := os.WriteFile(out, []byte(b.String()), 0644); err != nil {
 		fmt.Fprintln(os.Stderr, err)
 		os.Exit(2)
+	}
+	if len(errs) > 0 {
+		os.Exit(1)
 	}
 }
